@@ -481,8 +481,8 @@ func jsonParseInteger(s string) (*big.Int, bool) {
 }
 
 func jsonFloatDecode[T constraints.Float](fd protoreflect.FieldDescriptor, dec *json.Decoder, convert func(T) protoreflect.Value) (protoreflect.Value, error) {
-	tok, err := dec.Token()
-	if err != nil {
+	var raw json.RawMessage
+	if err := dec.Decode(&raw); err != nil {
 		return protoreflect.Value{}, err
 	}
 
@@ -491,14 +491,19 @@ func jsonFloatDecode[T constraints.Float](fd protoreflect.FieldDescriptor, dec *
 		bits = 32
 	}
 
-	switch tok := tok.(type) {
-	case float64:
-		// a finite number which doesn't fit into a float is an error, not an infinity
-		if bits == 64 || !math.IsInf(float64(float32(tok)), 0) {
-			return convert(T(tok)), nil
+	// numbers are parsed from their text with the field's precision, parsing them as a float64 first would round twice
+	tok := string(raw)
+
+	switch {
+	case len(raw) > 0 && raw[0] == '"':
+		// this supports NaN, -Infinity, +Infinity
+		if err := json.Unmarshal(raw, &tok); err != nil {
+			return protoreflect.Value{}, err
 		}
-	case string:
-		// this supports NaN, -Infinity, +Infinity; numbers which don't fit into the field's type are range errors
+
+		fallthrough
+	case len(raw) > 0 && (raw[0] == '-' || raw[0] >= '0' && raw[0] <= '9'):
+		// a finite number which doesn't fit into the field's type is a range error, not an infinity
 		f, err := strconv.ParseFloat(tok, bits)
 		if err == nil {
 			return convert(T(f)), nil
